@@ -285,6 +285,14 @@ def cli_dir(run, model, rng, nfiles, sub=False):
         single = {}
         for name, data, meta in files[:4]:
             single[name] = runner(["-f", os.path.join(d, name)] + sel)
+        if plugins and bits & 1 and rng.random() < 0.6:
+            # (with -E every file is exported again) an earlier export into the same directory, of a longer rendering (every byte of it must be gone afterwards)
+            for name, data, meta in files:
+                r0 = pelgen.impl_decode(data, True)
+                if r0["kind"] == "ok":
+                    with open(os.path.join(d, "%s.%s.json" % (name, r0["eid"])), "w") as f0:
+                        # (the aligned rendering is longer than r0["text"]: pad well beyond it)
+                        f0.write(r0["text"] + "\n" + " " * (3 * len(r0["text"]) + 4096) + "{\"left over from an earlier export\": [%s]}\n" % ("1, " * 40 + "1"))
         rj = runner(["-p", d, "-j"] + sel)
         written = {n: open(os.path.join(d, n), encoding="utf-8").read() for n in sorted(os.listdir(d)) if n.endswith(".json") and n not in [f[0] for f in files]}
     docs = {}
